@@ -147,8 +147,21 @@ class SSHChannel(log.Logger):
             # buffers look empty, which they do after the first entry.
             closing, self.closing = self.closing, False
             try:
-                for type, data in b:
-                    self.writeExtended(type, data)
+                while b:
+                    type, data = b.pop(0)
+                    room = self.remoteWindowLeft
+                    if len(data) > room:
+                        # Out of window again: send what fits and put the
+                        # rest, and every entry not yet replayed, back before
+                        # stopWriting() gets a chance to write behind them.
+                        if room:
+                            self.writeExtended(type, data[:room])
+                        self.extBuf = [[type, data[room:]]] + b
+                        b = []
+                        self.areWriting = 0
+                        self.stopWriting()
+                    else:
+                        self.writeExtended(type, data)
             finally:
                 # A close requested meanwhile (from stopWriting()) counts too.
                 closing = self.closing = closing or self.closing
